@@ -523,6 +523,10 @@ type VerifWorld struct {
 	multi        bool
 	deferredMu   sync.Mutex
 	sink         net.Listener
+	holdSink     net.Listener // accepts and never answers: outgoing handshakes to it stay pending
+	holdNext     int
+	holdOpen     int // connections the hold sink has accepted and the client has not closed yet
+	holdConns    []net.Conn
 	sinkAddr     *net.TCPAddr
 	sinkMu       sync.Mutex
 	sinkDials    int
@@ -852,6 +856,14 @@ func (w *VerifWorld) Close() {
 	if w.sink != nil {
 		w.sink.Close()
 	}
+	if w.holdSink != nil {
+		w.holdSink.Close()
+		w.sinkMu.Lock()
+		for _, c := range w.holdConns {
+			c.Close()
+		}
+		w.sinkMu.Unlock()
+	}
 	for _, tr := range w.trackers {
 		tr.mu.Lock()
 		close(tr.release)
@@ -1020,7 +1032,11 @@ func (w *VerifWorld) settle() error {
 				busy = true
 			}
 		}
-		if len(t.incomingHandshakers) > 0 || len(t.outgoingHandshakers) > 0 {
+		w.sinkMu.Lock()
+		held := w.holdOpen
+		w.sinkMu.Unlock()
+		// outgoing handshakes to the hold sink stay pending by design; anything else is still in motion
+		if len(t.incomingHandshakers) > 0 || len(t.outgoingHandshakers) != held {
 			busy = true
 		}
 		if !busy && (stable == 0 || sig == lastSig) {
@@ -1326,6 +1342,49 @@ func (w *VerifWorld) Op(op string) string {
 	case "crashcheck":
 		o := w.observeAfterSettle()
 		return "crash=" + w.crashCheck(m) + " " + o
+	case "dialhold":
+		// addresses of peers that accept the connection and never answer the handshake (distinct loopback IPs)
+		if w.holdSink == nil {
+			ln, err := net.Listen("tcp4", "0.0.0.0:0")
+			if err != nil {
+				return "bad-op:listen"
+			}
+			w.holdSink = ln
+			go func() {
+				for {
+					c, err := ln.Accept()
+					if err != nil {
+						return
+					}
+					w.sinkMu.Lock()
+					w.sinkDials++
+					w.holdOpen++
+					w.holdConns = append(w.holdConns, c)
+					w.sinkMu.Unlock()
+					go func(c net.Conn) {
+						buf := make([]byte, 4096)
+						for {
+							if _, err := c.Read(buf); err != nil {
+								break
+							}
+						}
+						w.sinkMu.Lock()
+						w.holdOpen--
+						w.sinkMu.Unlock()
+						c.Close()
+					}(c)
+				}
+			}()
+		}
+		port := w.holdSink.Addr().(*net.TCPAddr).Port
+		var addrs []*net.TCPAddr
+		for i := 0; i < verifAtoi(m["n"], 1); i++ {
+			w.holdNext++
+			addrs = append(addrs, &net.TCPAddr{IP: net.IPv4(127, 0, 1, byte(w.holdNext)), Port: port})
+		}
+		if !w.call(func() { w.t.AddPeers(addrs) }) {
+			return "hang"
+		}
 	case "addtracker":
 		// a new in-process tracker (its own tier) added to the live torrent
 		var ln net.Listener
